@@ -2,7 +2,7 @@
    Only theorem statements; every proof is `exact <lemma>` from theories/HashProofs.v. *)
 From Coq Require Import ZArith List.
 From Sketchnu Require Import Machine Consts Hashes HashSpec HashProofs.
-From Sketchnu Require Kernels KernelTie.
+From Sketchnu Require KernelsHashes KernelTieHashes.
 Import ListNotations.
 Open Scope Z_scope.
 
@@ -45,13 +45,38 @@ Print Assumptions C11_range32.
 (* the loop-free helper kernels as regenerated from the source AST on this run (generated/Kernels.v)
    are the functions the transcription is built from *)
 Theorem C11_source_tie :
-  (forall v t l, Kernels.gen_xor_shiftl v t l = xor_shiftl v t l) /\
-  (forall h, 0 <= h < 2^64 -> Kernels.gen_fhmix64 h = fhmix64 h) /\
-  (forall x y, Kernels.gen_xor32 x y = xor32 x y) /\ (forall x y, Kernels.gen_shift32r x y = shift32r x y) /\
-  (forall x y, Kernels.gen_shift32l x y = shift32l x y) /\ (forall x r, Kernels.gen_rotl32 x r = rotl32 x r) /\
-  (forall h, Kernels.gen_fmix32 h = fmix32 h).
-Proof. exact KernelTie.tie_hashes. Qed.
+  (forall v t l, KernelsHashes.gen_xor_shiftl v t l = xor_shiftl v t l) /\
+  (forall h, 0 <= h < 2^64 -> KernelsHashes.gen_fhmix64 h = fhmix64 h) /\
+  (forall x y, KernelsHashes.gen_xor32 x y = xor32 x y) /\ (forall x y, KernelsHashes.gen_shift32r x y = shift32r x y) /\
+  (forall x y, KernelsHashes.gen_shift32l x y = shift32l x y) /\ (forall x r, KernelsHashes.gen_rotl32 x r = rotl32 x r) /\
+  (forall h, KernelsHashes.gen_fmix32 h = fmix32 h).
+Proof. exact KernelTieHashes.tie_hashes. Qed.
 Print Assumptions C11_source_tie.
+
+(* ... and so are all remaining straight-line regions of fasthash64 / fasthash32 / murmur3 (initial state, loop
+   bodies, tail switches, final mixes); only the two loop headers are hand-transcribed: the transcription's loops
+   iterate exactly the tied bodies *)
+Theorem C11_source_tie_regions :
+  (forall seed len, KernelsHashes.gen_fh_init seed len = Z.lxor seed (wrap64 (wrap64 len * fh_m))) /\
+  (forall h v, 0 <= v < 2^64 -> KernelsHashes.gen_fh_block h v fh_m = fh_round h v) /\
+  (forall h key_len t0 t1 t2 t3 t4 t5 t6, 0 <= h < 2^64 -> bytes [t0; t1; t2; t3; t4; t5; t6] ->
+     KernelsHashes.gen_fh_finish h key_len fh_m t0 t1 t2 t3 t4 t5 t6 =
+     fhmix64 (fh_tail (Z.land key_len 7) [t0; t1; t2; t3; t4; t5; t6] h)) /\
+  (forall h, KernelsHashes.gen_fh32_fin h = fh32_fin h) /\
+  (forall h b, KernelsHashes.gen_mm_block h b mm_c1 mm_c2 mm_c3 = KernelTieHashes.mm_block_hand h b) /\
+  (forall h key_len t0 t1 t2, KernelsHashes.gen_mm_finish h key_len mm_c1 mm_c2 t0 t1 t2 =
+     fmix32 (xor32 (mm_tail (Z.land key_len 3) [t0; t1; t2] h) key_len)).
+Proof. exact KernelTieHashes.tie_hash_regions. Qed.
+Print Assumptions C11_source_tie_regions.
+
+Theorem C11_loops_iterate_tied_bodies :
+  (forall n b0 b1 b2 b3 b4 b5 b6 b7 r h,
+     fh_blocks (S n) (b0 :: b1 :: b2 :: b3 :: b4 :: b5 :: b6 :: b7 :: r) h =
+     fh_blocks n r (fh_round h (le8 b0 b1 b2 b3 b4 b5 b6 b7))) /\
+  (forall n b0 b1 b2 b3 r h,
+     mm_blocks (S n) (b0 :: b1 :: b2 :: b3 :: r) h = mm_blocks n r (KernelTieHashes.mm_block_hand h (le4 b0 b1 b2 b3))).
+Proof. exact (conj KernelTieHashes.fh_blocks_step KernelTieHashes.mm_blocks_step). Qed.
+Print Assumptions C11_loops_iterate_tied_bodies.
 
 (* non-vacuity / known answers: the repository's own vectors (from the C++ originals),
    evaluated on the transcription and on the reference *)
